@@ -429,6 +429,22 @@ impl PCheck for C13 {
         if let Some(v) = compare("C13", "ASCII and UTF-8 entry points disagree on an ASCII haystack", hay, "ascii", &a, "utf8", &b, &mut rep) {
             return v;
         }
+        // find_ascii / find_iter_ascii are find_from_ascii(text, 0)
+        if start == 0 {
+            let r = engine::guarded(FUEL, || {
+                let x: Vec<engine::EMatch> = p.0.find_iter_ascii(hay).take(engine::MAX_MATCHES).map(|m| engine::EMatch::from(&m)).collect();
+                let y = p.0.find_ascii(hay).map(|m| engine::EMatch::from(&m));
+                (x, y)
+            });
+            if let (Guarded::Ok((x, y)), Guarded::Ok(a)) = (r, &a) {
+                if let Some(r) = rep.as_deref_mut() {
+                    r.inc("find_ascii_wrapper_comparisons");
+                }
+                if &x != a || y.as_ref() != a.first() {
+                    return Verdict::Violated { property: "C13", what: "find_iter_ascii / find_ascii differ from find_from_ascii(text, 0)".into(), observed: format!("find_iter_ascii: {} | find_ascii: {:?}", engine::show_matches(&x), y.map(|m| m.show())), expected: format!("find_from_ascii(0): {}", engine::show_matches(a)) };
+                }
+            }
+        }
         Verdict::Held { nontrivial: nontrivial(&b) }
     }
 }
